@@ -226,6 +226,15 @@ def gen_c08(rng, tier, dist):
                 data = first + body + b"END\r\n"
                 cases.append("adown %d,%d,5 %s" % (len(first), mid, HX(data)))
                 dist.add("data-path:ascii-download-block-at-buffer-size")
+    # integers taken from server text never wrap: the decimal parsers at and far beyond their limits (every leading
+    # digit of a 20-digit number, values whose wrapped image is larger than their prefix, longer numbers)
+    for k, lim in (("u8", 2 ** 8), ("u16", 2 ** 16), ("u32", 2 ** 32), ("u64", 2 ** 64)):
+        vals = [lim - 1, lim, lim + 1, lim + 4, 2 * lim, 10 * lim - 1, lim * lim, 3 * 10 ** 19, 36893488147419103231, 25 * 10 ** 18]
+        vals += [d * 10 ** 19 + rng.randrange(10 ** 19) for d in range(1, 10)]
+        vals += [rng.randrange(lim, 100 * lim) for _ in range(40)] + [rng.randrange(0, lim) for _ in range(10)]
+        for v in vals:
+            cases.append("%s %s" % (k, HX(str(v).encode())))
+            dist.add("decimal:" + k)
     for n in (8191, 8192, 8193, 16384, 16385):
         for fill in (b"a", b"\n", b"\r", b"\r\n", b"a\n"):
             data = (fill * n)[:n]
@@ -234,6 +243,24 @@ def gen_c08(rng, tier, dist):
                     cases.append("aup %d %s %s %s" % (isz, sizes, rng.choice(["-", "1", "8192", "100,8192"]), HX(data)))
                     dist.add("data-path:ascii-upload-at-buffer-size")
     return cases
+
+
+def judge(prop, c, i, s):
+    """the property's own verdict on one case: None, or (signature, what)"""
+    if "livelock" in i:
+        return ("recv/never-returns-after-eof", "the receive step keeps reading after the transport reported end of stream")
+    if i.startswith("CRASH"):
+        return ("runtime/crash-or-sanitizer-report", i[:300])
+    if c.split()[0] in ("u8", "u16", "u32", "u64") and i != "none" and i != bytes.fromhex(c.split()[1]).decode().lstrip("0").rjust(1, "0"):
+        return ("decimal/wrapped-or-wrong-value", "numeral %s parsed as %s" % (bytes.fromhex(c.split()[1]).decode(), i))
+    if "exn:other" in i or "BUFFER-OVER-CAP" in i:
+        return ("recv/foreign-exception-or-cap-exceeded", i[:200])
+    if prop == "C01" and i != s:
+        kind = "recv/wrong-framing"
+        if " exn" in (" " + i):
+            kind = "recv/throws-on-well-formed-stream"
+        return (kind, "replies returned differ from the replies in the stream, or the rest was not kept")
+    return None
 
 
 def run(prop, tier, seed):
@@ -261,20 +288,9 @@ def run(prop, tier, seed):
         if m.startswith("MODEL-ERROR") or (c.startswith("wfcheck") and m != "ok"):
             rep.broken("model-driver-or-generator", "%s -> %s" % (c[:300], m))
             continue
-        bad = None
-        if "livelock" in i:
-            bad = ("recv/never-returns-after-eof", "the receive step keeps reading after the transport reported end of stream")
-        elif i.startswith("NOT-RUN"):
+        if i.startswith("NOT-RUN"):
             continue            # the process had died on an earlier case of the shard: that case carries the report
-        elif i.startswith("CRASH"):
-            bad = ("runtime/crash-or-sanitizer-report", i[:300])
-        elif "exn:other" in i or "BUFFER-OVER-CAP" in i:
-            bad = ("recv/foreign-exception-or-cap-exceeded", i[:200])
-        elif prop == "C01" and i != s:
-            kind = "recv/wrong-framing"
-            if " exn" in (" " + i):
-                kind = "recv/throws-on-well-formed-stream"
-            bad = (kind, "replies returned differ from the replies in the stream, or the rest was not kept")
+        bad = judge(prop, c, i, s)
         if bad:
             rep.violation(bad[0], bad[1], dict(kind="frame", case=c, implementation=i, specification=s, model=m))
         if i != m:
@@ -315,8 +331,9 @@ def replay(prop, path):
     print("case:           ", r["case"][:500])
     print("implementation: ", i[:500])
     print("model / spec:   ", m[:500])
-    ok = (i == m.split("\t")[1]) if prop == "C01" else not ("livelock" in i or "CRASH" in i or "exn:other" in i)
-    if not ok:
+    bad = judge(prop, r["case"], i, m.split("\t")[1] if "\t" in m else m)
+    if bad:
+        print("verdict:        ", bad[0], "-", bad[1][:200])
         print("VIOLATION property=%s replay=%s" % (prop, path))
         return 1
     return 0
